@@ -779,6 +779,106 @@ theorem getVal_cases (s : St) (h : Nat) :
     | none => exact Or.inl rfl
     | some e => exact Or.inr ⟨e, rfl, rfl⟩
 
+/-! ## unwinding: a panicking element `Clone` inside `into_owned` / `clone` -/
+
+/-- what `owned_from_parts` leaves behind when its element copy unwinds, by kind: nothing can unwind for an
+    Owned value; a Borrowed value is simply consumed; a Shared value gives back exactly ONE strong reference.
+    In each case the state with the handle consumed satisfies the invariant again. -/
+theorem ownedFromPartsUnwind_spec {s : St} (hI : Inv s) {h : Nat} {e : Entry} (he : s.vals[h]? = some (some e)) :
+    (e.val.kind = .owned ∧ ownedFromPartsUnwind s e.val = .ok none) ∨
+    (e.val.kind = .borrowed ∧ ownedFromPartsUnwind s e.val = .ok (some s) ∧ Inv (killVal s h)) ∨
+    (e.val.kind = .shared ∧ ∃ i c, e.val.ptr = .arc i ∧ s.arcs[i]? = some c ∧ c.live = true ∧ 0 < c.strong ∧
+      ownedFromPartsUnwind s e.val = .ok (some { s with arcs := s.arcs.set i (c.dec 0) }) ∧
+      Inv (killVal { s with arcs := s.arcs.set i (c.dec 0) } h)) := by
+  have hE := hI.ent h e he
+  have hr := read_ok hE
+  unfold EntryOk at hE
+  split at hE
+  · next hp =>
+    obtain ⟨hcap, _, _⟩ := hE
+    refine Or.inr (Or.inl ⟨by simp [CowVal.kind, hcap, kindOf_zero], ?_,
+      inv_killPlain hI h e he (by simp [hp]) (by simp [hp])⟩)
+    simp [ownedFromPartsUnwind, CowVal.kind, hcap, kindOf_zero, hr, bind, Except.bind]
+  · next i hp =>
+    obtain ⟨hcap, _, _⟩ := hE
+    refine Or.inr (Or.inl ⟨by simp [CowVal.kind, hcap, kindOf_zero], ?_,
+      inv_killPlain hI h e he (by simp [hp]) (by simp [hp])⟩)
+    simp [ownedFromPartsUnwind, CowVal.kind, hcap, kindOf_zero, hr, bind, Except.bind]
+  · next i hp =>
+    obtain ⟨h0, hm, _⟩ := hE
+    exact Or.inl ⟨by simp [CowVal.kind, kindOf_owned h0 hm],
+      by simp [ownedFromPartsUnwind, CowVal.kind, kindOf_owned h0 hm]⟩
+  · next i hp =>
+    obtain ⟨hcap, c, hc, hl, hcont, hlen⟩ := hE
+    obtain ⟨h1, h2, h3⟩ := hI.arc i c hc
+    have hpos0 : 0 < c.strong := by
+      rw [hl] at h2
+      simpa using h2.symm
+    have hpos : c.strong ≠ 0 := by omega
+    refine Or.inr (Or.inr ⟨by simp [CowVal.kind, hcap, kindOf_max], i, c, hp, hc, hl, hpos0, ?_,
+      inv_dropShared hI h e he i hp c hc⟩)
+    rw [hp] at hr
+    simp [ownedFromPartsUnwind, CowVal.kind, hcap, kindOf_max, hr, decStrong, decArc, hp, hc, hl, hpos,
+      bind, Except.bind]
+
+/-- only the Owned arm of `clone_from_parts` runs user code; reading the source succeeds -/
+theorem cloneFromPartsUnwind_spec {s : St} (hI : Inv s) {h : Nat} {e : Entry} (he : s.vals[h]? = some (some e)) :
+    (e.val.kind = .owned ∧ cloneFromPartsUnwind s e.val = .ok true) ∨
+    (e.val.kind ≠ .owned ∧ cloneFromPartsUnwind s e.val = .ok false) := by
+  have hr := read_ok (hI.ent h e he)
+  cases hk : e.val.kind with
+  | owned => exact Or.inl ⟨rfl, by simp [cloneFromPartsUnwind, hk, hr, bind, Except.bind]⟩
+  | borrowed => exact Or.inr ⟨by simp, by simp [cloneFromPartsUnwind, hk]⟩
+  | shared => exact Or.inr ⟨by simp, by simp [cloneFromPartsUnwind, hk]⟩
+
+theorem stepClone_inv {s : St} (hI : Inv s) (h : Nat) :
+    match stepClone s h with
+    | .ok (s', _) => Inv s'
+    | .error e => e.isMisuse = true := by
+  simp only [stepClone]
+  rcases getVal_cases s h with hg | ⟨e, he, hg⟩
+  · simp [hg, bind, Except.bind, Err.isMisuse]
+  · obtain ⟨s1, v, hc, hI'⟩ := cloneFromParts_spec hI he
+    simp only [hg, hc, bind, Except.bind, bindNew_ok hI']
+    exact hI'
+
+theorem stepIntoOwned_inv {s : St} (hI : Inv s) (h fc : Nat) :
+    match stepIntoOwned s h fc with
+    | .ok (s', _) => Inv s'
+    | .error e => e.isMisuse = true := by
+  simp only [stepIntoOwned]
+  rcases getVal_cases s h with hg | ⟨e, he, hg⟩
+  · simp [hg, bind, Except.bind, Err.isMisuse]
+  · obtain ⟨s1, o, hc, hI'⟩ := ownedFromParts_spec hI he fc
+    simp only [hg, intoOwned, hc, bind, Except.bind, bindNew_ok hI']
+    exact hI'
+
+theorem stepIntoOwnedUnwind_inv {s : St} (hI : Inv s) (h fc : Nat) :
+    match stepIntoOwnedUnwind s h fc with
+    | .ok (s', _) => Inv s'
+    | .error e => e.isMisuse = true := by
+  rcases getVal_cases s h with hg | ⟨e, he, hg⟩
+  · simp [stepIntoOwnedUnwind, hg, Err.isMisuse]
+  · rcases ownedFromPartsUnwind_spec hI he with ⟨_, hu⟩ | ⟨_, hu, hI'⟩ | ⟨_, i, c, _, _, _, _, hu, hI'⟩
+    · simp only [stepIntoOwnedUnwind, hg, hu]
+      exact stepIntoOwned_inv hI h fc
+    · simp only [stepIntoOwnedUnwind, hg, hu]
+      exact hI'
+    · simp only [stepIntoOwnedUnwind, hg, hu]
+      exact hI'
+
+theorem stepCloneUnwind_inv {s : St} (hI : Inv s) (h : Nat) :
+    match stepCloneUnwind s h with
+    | .ok (s', _) => Inv s'
+    | .error e => e.isMisuse = true := by
+  rcases getVal_cases s h with hg | ⟨e, he, hg⟩
+  · simp [stepCloneUnwind, hg, Err.isMisuse]
+  · rcases cloneFromPartsUnwind_spec hI he with ⟨_, hu⟩ | ⟨_, hu⟩
+    · simp only [stepCloneUnwind, hg, hu]
+      exact hI
+    · simp only [stepCloneUnwind, hg, hu]
+      exact stepClone_inv hI h
+
 /-- **one step**: from a state satisfying the invariant every operation either succeeds into a state
     satisfying the invariant, or is rejected as a caller error — never a memory error. -/
 theorem step_inv {s : St} (hI : Inv s) (op : Op) :
@@ -843,11 +943,7 @@ theorem step_inv {s : St} (hI : Inv s) (op : Op) :
         exact hI'
   | clone h =>
     simp only [step]
-    rcases getVal_cases s h with hg | ⟨e, he, hg⟩
-    · simp [hg, bind, Except.bind, Err.isMisuse]
-    · obtain ⟨s1, v, hc, hI'⟩ := cloneFromParts_spec hI he
-      simp only [hg, hc, bind, Except.bind, bindNew_ok hI']
-      exact hI'
+    exact stepClone_inv hI h
   | deref h =>
     simp only [step]
     rcases getVal_cases s h with hg | ⟨e, he, hg⟩
@@ -864,11 +960,7 @@ theorem step_inv {s : St} (hI : Inv s) (op : Op) :
         exact hI
   | intoOwned h fc =>
     simp only [step]
-    rcases getVal_cases s h with hg | ⟨e, he, hg⟩
-    · simp [hg, bind, Except.bind, Err.isMisuse]
-    · obtain ⟨s1, o, hc, hI'⟩ := ownedFromParts_spec hI he fc
-      simp only [hg, intoOwned, hc, bind, Except.bind, bindNew_ok hI']
-      exact hI'
+    exact stepIntoOwned_inv hI h fc
   | intoStdCow h fc =>
     simp only [step]
     rcases getVal_cases s h with hg | ⟨e, he, hg⟩
@@ -893,6 +985,12 @@ theorem step_inv {s : St} (hI : Inv s) (op : Op) :
     · obtain ⟨s1, hc, hI'⟩ := dropFromParts_spec hI he
       simp only [hg, hc, bind, Except.bind]
       exact hI'
+  | intoOwnedUnwind h fc =>
+    simp only [step]
+    exact stepIntoOwnedUnwind_inv hI h fc
+  | cloneUnwind h =>
+    simp only [step]
+    exact stepCloneUnwind_inv hI h
 
 
 /-! ## the heap functions never touch the caller's value table -/
